@@ -1,4 +1,5 @@
 import Svgbob.Model.Pipeline
+import Svgbob.Proofs.SourceConstants
 /-!
 # C14 — arrowheads, bullets and rounded corners sit and point where the text says
 
@@ -143,5 +144,17 @@ example : lineMergeCircle ⟨500, 1000⟩ ⟨1000, 1000⟩ false ⟨500, 1000⟩
     some (.markerLine ⟨1000, 1000⟩ ⟨500, 1000⟩ false none (some .circle)) := by decide
 example : lineMergeCircle ⟨500, 1500⟩ ⟨500, 2000⟩ false ⟨500, 1000⟩ 375 true =
     some (.markerLine ⟨500, 2000⟩ ⟨500, 1000⟩ false none (some .circle)) := by decide
+
+/-! ### the model's literals are the source's literals (regenerated `Gen/Thresholds.lean`) -/
+
+/-- the distances at which a line snaps to a bullet, and the largest bullet radius, are those of
+`Line::merge_circle`, `Direction::threshold_length` and `CellGrid` now -/
+theorem bullet_merge_thresholds_are_the_sources :
+    ([Heading.right, .topRight, .top, .topLeft, .left, .bottomLeft, .bottom, .bottomRight].all fun h =>
+      match (Gen.thresholdLengthOf.lookup h.sourceName).bind cellLengthSq with
+      | some l2 => l2 * (Gen.mergeCircleFactor.1 * Gen.mergeCircleFactor.1) ==
+          h.threshold75Sq * (Gen.mergeCircleFactor.2 * Gen.mergeCircleFactor.2)
+      | none => false) = true ∧
+    Gen.mergeCircleMaxRadius = 750 := bullet_merge_thresholds_match_source
 
 end Svgbob.C14
